@@ -59,6 +59,9 @@ _c07 += [
     H("c07::c07_char_accepts", crate="hm", unwind=6, stubs=[FMT], bounds="strings of 0..=2 scalar values, <= 3 bytes; every Number; Null"),
     H("c07::c07_string", crate="hm", unwind=6, stubs=[FMT], bounds="ASCII strings of 0..=3 bytes; every Number, Boolean, Null rejected"),
     H("c07::c07_id", crate="hm", unwind=6, stubs=[FMT], bounds="ASCII strings of 0..=2 bytes; Boolean, Null, every finite float rejected"),
+    H("c07::enums::c07_enum_accepts_enum", crate="hm", unwind=5, stubs=[FMT], bounds="derive(Enum) with variants A, B, C; enum value of any one ASCII letter"),
+    H("c07::enums::c07_enum_accepts_string", crate="hm", unwind=5, stubs=[FMT], bounds="derive(Enum) with variants A, B, C; string of any one ASCII letter"),
+    H("c07::enums::c07_enum_roundtrip", crate="hm", unwind=5, stubs=[FMT], bounds="every variant (solver-chosen): to_value / parse round trip; every Number, Boolean, Null rejected"),
 ]
 PROPS["C07"] = {
     "title": "built-in scalars accept exactly their domain and round-trip",
@@ -71,8 +74,9 @@ PROPS["C07"] = {
              "parse returns Ok(v) iff the number is an integer in the type's mathematical range (and != 0 for NonZero) and then v "
              "equals it; is_valid never refuses a number parse accepts; parse(to_value(v)) == v for every v; values of other kinds "
              "are rejected. f32/f64: every Number is accepted with its f64 reading, every finite float round-trips bit-exactly, "
-             "non-finite floats never panic. bool, char (every Unicode scalar value), String and ID likewise (strings <= 3 bytes)",
-    "not_covered": "derived enums (parse_enum needs the enum's item table and string comparison loops beyond the bound), optional-feature "
+             "non-finite floats never panic. bool, char (every Unicode scalar value), String and ID likewise (strings <= 3 bytes); a derive-built "
+             "3-variant enum accepts exactly the one-letter enum values / strings that name a variant and round-trips every variant",
+    "not_covered": "enum names longer than one letter, renamed / remote enums, optional-feature "
                    "scalars (chrono, uuid, ...); f32 overflow to infinity for |x| > f32::MAX is accepted by the code and not asserted on; "
                    "strings longer than 3 bytes; Enum/Object kinds offered to scalars",
     "assumptions": ["serde_json is built without arbitrary_precision (Cargo.lock feature set of the pinned tree)"],
@@ -160,16 +164,19 @@ PROPS["C14"] = {
     ],
 }
 
+SLICE_ = "core::str::slice_error_fail -> panics immediately (same control flow as the original, which only formats the panic message first)"
 PROPS["C13"] = {
     "title": "the parser builds the tree the document denotes (string decoding kernels only)",
     "files": ["parser/src/parse/utils.rs", "parser/src/graphql.pest"],
-    "funcs": ["parse::utils::string_value (called by parse_string on the text matched by the grammar rule string_content)"],
+    "funcs": ["parse::utils::string_value (called by parse_string on the text matched by the grammar rule string_content)",
+              "types::Type::new (called by parse_type on the text matched by the grammar rule type_)"],
     "claim": "for EVERY ASCII text of 1..4 bytes that the grammar rule string_content admits (reference recogniser of the rule in the "
              "harness) string_value returns exactly the StringValue the GraphQL spec defines (all eight simple escapes, raw characters) and "
-             "does not panic; every non-ASCII scalar value (2-4 bytes) passes through unchanged",
+             "does not panic; every non-ASCII scalar value (2-4 bytes) passes through unchanged; Type::new builds exactly the type a type "
+             "expression denotes for 7 shapes (up to 3 wrappers) and every one-letter-or-underscore name prefix",
     "not_covered": "the pest grammar and the tree builders, i.e. WHICH documents are accepted (1 symbolic byte through parse_query does not "
                    "finish); \\uXXXX escapes (6-byte inputs exhaust 50 GB); block strings (block_string_value does not finish for 2-byte "
-                   "inputs in 10 min); operation/fragment uniqueness, the 64-level limit, type expressions",
+                   "inputs in 10 min); operation/fragment uniqueness, the 64-level limit",
     "assumptions": ["input is grammar-valid string content (the grammar guarantees it before the call); the recogniser is part of the oracle"],
     "harnesses": [
         H("c13::c13_string_ascii1", crate="hp", unwind=3, bounds="every grammar-valid ASCII string content of 1 byte"),
@@ -177,7 +184,8 @@ PROPS["C13"] = {
         H("c13::c13_string_ascii3", crate="hp", unwind=5, cls="L", mem_gb=12, timeout_s=900, bounds="every grammar-valid ASCII string content of 3 bytes"),
         H("c13::c13_string_ascii4", crate="hp", unwind=6, cls="L", mem_gb=20, timeout_s=1500, tiers=("thorough",), bounds="every grammar-valid ASCII string content of 4 bytes"),
         H("c13::c13_string_nonascii", crate="hp", unwind=6, cls="L", mem_gb=20, timeout_s=1500, tiers=("thorough",), bounds="every non-ASCII Unicode scalar value, followed by 'z' when shorter than 4 bytes"),
-    ],
+    ] + [H("c13::types::c13_type_new%d" % i, crate="hp", unwind=5, stubs=[SLICE_], timeout_s=600,
+           bounds="type expression shape #%d of [T, T!, [T], [T]!, [T!], [T!]!, [[T]!]]; name = any letter or '_' followed by 'Z'" % i) for i in range(7)],
 }
 
 PROPS["C15"] = {
@@ -207,8 +215,8 @@ PROPS["C32"] = {
     "claim": "for every first/last in Option<i32> and every ASCII cursor string of 0..3 bytes (or none) as after or before, query_with "
              "invokes the page-fetching closure iff first >= 0, last >= 0 and the cursor decodes (reference u8 parser in the harness), "
              "passes it exactly the decoded values, and otherwise returns an error without invoking it; decode(encode(v)) == v for every "
-             "u8, i8, u16, i16, bool and ASCII char",
-    "not_covered": "wider integers and floats (std's digit/Grisu loops are unbounded for CBMC at full width), String/ID cursors (identity), "
+             "u8, i8, u16, i16, bool and ASCII char (thorough: every u32)",
+    "not_covered": "i32 and wider integers (i32 does not finish in 25 min) and floats (Grisu), String/ID cursors (identity), "
                    "OpaqueCursor (base64 + serde_json), page info's start/end cursors (async resolver over a Context), both cursors "
                    "present at once",
     "assumptions": ["the closure's future is immediately ready (polled once with a no-op waker)"],
@@ -222,6 +230,7 @@ PROPS["C32"] = {
         H("c32::c32_rt_i8", crate="hm", unwind=6, bounds="every i8"),
         H("c32::c32_rt_u16", crate="hm", unwind=8, bounds="every u16"),
         H("c32::c32_rt_i16", crate="hm", unwind=8, bounds="every i16", timeout_s=600),
+        H("c32::c32_rt_u32", crate="hm", unwind=13, cls="L", mem_gb=4, timeout_s=3000, tiers=("thorough",), bounds="every u32 (24 min)"),
         H("c32::c32_rt_bool", crate="hm", unwind=7, bounds="both booleans"),
         H("c32::c32_rt_char_ascii", crate="hm", unwind=6, bounds="every ASCII char"),
     ],
@@ -262,6 +271,8 @@ _c16 += [
     H("c16::c16_ser_enum_newtype", crate="hv", unwind=4, stubs=[FMT], bounds="3 unit variants (solver-chosen); newtype struct over every u16"),
     H("c16::c16_de_bool_unit_option", crate="hv", unwind=4, stubs=[FMT], bounds="both bools, unit, Option<bool> from Null / Boolean"),
     H("c16::c16_de_wide_numbers", crate="hv", unwind=4, stubs=[FMT], bounds="every i64, every u64, every finite f64 from the Number denoting it"),
+    H("c16::c16_ser_de_string0", crate="hv", unwind=4, stubs=[FMT], bounds="the empty string: to_value and from_value round trip"),
+    H("c16::c16_ser_de_string2", crate="hv", unwind=4, stubs=[FMT], bounds="every ASCII string of 2 bytes: to_value and from_value round trip"),
 ]
 PROPS["C16"] = {
     "title": "serde values convert to GraphQL values and back (scalar leaves)",
@@ -270,8 +281,9 @@ PROPS["C16"] = {
               "async_graphql_value::from_value / ConstValue as Deserializer for bool, (), Option<bool>, i64, u64, f64"],
     "claim": "to_value(&v) is exactly the ConstValue that denotes v for every v of bool, i8..i64, u8..u64, f32, f64 (non-finite -> Null), (), "
              "Option<u8>, a 3-variant unit-only enum and a newtype struct over u16; from_value returns the denoted value for bool, (), "
-             "Option<bool>, every i64, every u64 and every finite f64 - for these types the two compose to the round trip",
-    "not_covered": "strings/bytes, maps, sequences, tuples, structs, data-carrying enum variants, nesting, narrow integer targets on the "
+             "Option<bool>, every i64, every u64, every finite f64 and every ASCII string of 0 or 2 bytes - for these types the two compose to the "
+             "round trip",
+    "not_covered": "longer / non-ASCII strings, bytes, maps, sequences and tuples (the 2-element harness c16_ser_tuple_seq does not finish in 15 min), structs, data-carrying enum variants, nesting, narrow integer targets on the "
                    "deserializer side (their range-error path builds its message through serde's Error::custom -> to_string, which does not "
                    "finish); Option<Option<T>>, non-finite floats and char are outside the family the property quantifies over",
     "assumptions": [],
@@ -306,15 +318,14 @@ PROPS["C17"] = {
     "title": "exported SDL is valid (string-escaping kernels of the exporter)",
     "files": ["src/registry/export_sdl.rs"],
     "funcs": ["registry::export_sdl::escape_string (deprecation reasons)", "registry::export_sdl::write_description (single-line mode)"],
-    "claim": "for EVERY ASCII string of 1..2 bytes, escape_string(s) is valid GraphQL string content that denotes s (reference decoder of "
+    "claim": "for EVERY ASCII string of 1 byte, escape_string(s) is valid GraphQL string content that denotes s (reference decoder of "
              "the crate's own string_content rule), so the emitted @deprecated(reason: \"...\") is a string literal for every reason",
     "not_covered": "write_description (the single-line harness exists but does not finish in 20 min; a backslash or lone CR in a single-line description is NOT escaped - seen by reading, not decided), everything structural in export_sdl.rs (type/field/directive printers over the registry), option combinations, block-mode "
-                   "descriptions, re-parsing with parse_schema, non-ASCII text, strings longer than 2 bytes",
+                   "descriptions, re-parsing with parse_schema, non-ASCII text, strings longer than 1 byte (2-byte inputs exhaust 22 GB)",
     "assumptions": [],
     "harnesses": [
         H("c17::c17_escape1_low", crate="hm", unwind=6, cls="L", mem_gb=8, timeout_s=900, bounds="every 1-byte string U+0000..U+003F (controls, quote, digits)"),
         H("c17::c17_escape1_high", crate="hm", unwind=6, cls="L", mem_gb=8, timeout_s=900, bounds="every 1-byte string U+0040..U+007F (letters, backslash, DEL)"),
-        H("c17::c17_escape2", crate="hm", unwind=7, cls="L", mem_gb=20, timeout_s=1800, tiers=("thorough",), bounds="every 2-byte ASCII string"),
     ],
 }
 
@@ -389,7 +400,7 @@ PROPS["C10"] = {
     "claim": "check_recursive_depth rejects exactly when the nesting (0 or 1 wrapper: a field with a sub-selection, an inline fragment) exceeds "
              "the limit, for EVERY usize limit; check_max_directives rejects exactly when a field's directive count (0, 1, 2) exceeds EVERY "
              "usize limit; the real depth and complexity visitors, driven by every "
-             "well-nested script of up to 8 field events, report the maximum nesting and the number of fields",
+             "well-nested script of up to 6 field events, report the maximum nesting and the number of fields",
     "not_covered": "nesting deeper than one wrapper and fragment spreads in the limit checks (2-wrapper chains exceed 25 min), the comparison of the measures with "
                    "the configured limits inside check_rules (needs a registry entry for the root type), custom complexity functions "
                    "generated by the derive macro, dynamic schemas, 'before any resolver runs'",
@@ -400,7 +411,6 @@ PROPS["C10"] = {
         H("c10::c10_depth_complexity2", crate="hm", unwind=8, stubs=[FMT, RS], bounds="every well-nested script of 2 field events"),
         H("c10::c10_depth_complexity4", crate="hm", unwind=8, stubs=[FMT, RS], bounds="every well-nested script of 4 field events"),
         H("c10::c10_depth_complexity6", crate="hm", unwind=8, stubs=[FMT, RS], timeout_s=900, bounds="every well-nested script of 6 field events"),
-        H("c10::c10_depth_complexity8", crate="hm", unwind=10, stubs=[FMT, RS], timeout_s=1500, tiers=("thorough",), bounds="every well-nested script of 8 field events"),
         H("c10::c10_rec_depth_chain_0", crate="hm", unwind=3, cls="L", mem_gb=10, timeout_s=1500, stubs=[FMT, RS], tiers=("thorough",), bounds="no wrapper; every usize limit"),
         H("c10::c10_rec_depth_chain_i", crate="hm", unwind=3, cls="L", mem_gb=10, timeout_s=1500, stubs=[FMT, RS], tiers=("thorough",), bounds="inline{leaf}; every usize limit"),
         H("c10::c10_max_directives_0", crate="hm", unwind=3, cls="L", mem_gb=13, timeout_s=1800, stubs=[FMT, RS], tiers=("thorough",), bounds="a field with 0 directives; every usize limit"),
